@@ -80,7 +80,7 @@ def c93_seed(rng, k):
 
 def seeds(ctx):
     rng = random.Random(ctx.seed * 104729 + (11 if ctx.quick else 12))
-    f = 1 if ctx.quick else 10
+    f = 1 if ctx.quick else 30
     out = {}          # (sym, stride) -> list of seed records
     def add(sym, stride, p, ad=(), ap=()):
         out.setdefault((sym, stride), []).append(dict(sym=sym, p=list(p), ad=list(ad), ap=list(ap)))
